@@ -42,8 +42,10 @@ def build_history(case):
     rng = core.rng_for(case["seed"], ID, case["idx"])
     prog = progs.gen_program(rng, "vp_%d_%d" % (case["seed"], case["idx"]))
     hist = [(prog, {"kind": "initial"})]
-    for _ in range(case["edits"]):
+    for k in range(case["edits"]):
         prog, desc = progs.random_edit(rng, prog)
+        # now and then several edits arrive before anything is called again
+        desc["silent"] = k + 1 < case["edits"] and rng.random() < 0.25
         hist.append((prog, desc))
     return hist
 
@@ -54,7 +56,7 @@ def call_all(prog, pkg, rec, twin):
     out = {}
     for i in progs.roots(prog):
         nd = prog["nodes"][i]
-        mod = sys.modules["%s.%s" % (pkg, nd["mod"])]
+        mod = sys.modules[progs.modname(prog, nd["mod"], twin)]
         fn = getattr(mod, nd["name"])
         res = []
         for _ in range(1 if twin else 2):
@@ -73,7 +75,7 @@ def versions(prog, pkg):
     for i in progs.roots(prog):
         nd = prog["nodes"][i]
         try:
-            out[nd["name"]] = getattr(sys.modules["%s.%s" % (pkg, nd["mod"])], nd["name"]).version()
+            out[nd["name"]] = getattr(sys.modules[progs.modname(prog, nd["mod"])], nd["name"]).version()
         except Exception as e:
             out[nd["name"]] = "raise:" + type(e).__name__
     return out
@@ -112,50 +114,19 @@ def exec_cell(src, module):
 
 
 def deliver_cell(old, new, desc, pkg, twin):
-    """Notebook-style delivery of one edit: only what changed is re-executed."""
-    mods = {m: sys.modules["%s.%s" % (pkg, m)] for m in ("a", "b")}
-    # new from-imports needed by module b
-    hdr = progs.header(new, "b", twin)
-    for line in hdr.split("\n"):
-        if line.startswith("from ") and ".a import" in line and line not in progs.header(old, "b", twin):
-            exec_cell(line + "\n", mods["b"])
-    for i in desc["changed_defs"]:
-        exec_cell(progs.render_def(new, i), mods[new["nodes"][i]["mod"]])
-    # whoever re-executes a definition in module a also re-executes the import that copies it into
-    # module b (otherwise b keeps calling the superseded object: plain Python semantics, in which an
-    # explicit version pinned on the old object can no longer be bumped by the user)
-    redefined = {new["nodes"][i]["name"] for i in desc["changed_defs"] if new["nodes"][i]["mod"] == "a"}
-    for line in hdr.split("\n"):
-        if line.startswith("from ") and ".a import" in line:
-            names = [n.strip() for n in line.split(" import ")[1].split(",")]
-            again = [n for n in names if n in redefined]
-            if again:
-                exec_cell("%s import %s\n" % (line.split(" import ")[0], ", ".join(again)), mods["b"])
-    redefined_idx = set(desc["changed_defs"])
-    for al in new["aliases"]:
-        o = next((x for x in old["aliases"] if x["name"] == al["name"] and x["mod"] == al["mod"]), None)
-        # (aliases of a re-executed definition are re-executed as well, like the imports above)
-        if o is None or o["target"] != al["target"] or al["target"] in redefined_idx:
-            exec_cell("%s = %s\n" % (al["name"], new["nodes"][al["target"]]["name"]), mods[al["mod"]])
-    if desc.get("var") is not None:
-        v = new["vars"][desc["var"]]
-        owner = mods[v["mod"]]
-        if desc["kind"] == "var_mutate":
-            obj = getattr(owner, v["name"])
-            if v["type"] == "list":
-                obj.append(v["value"][-1])
-            else:
-                obj["k"] = v["value"]["k"]
-        else:
-            exec_cell("%s = %s\n" % (v["name"], progs.var_literal(v)), owner)
+    """Notebook-style delivery of one edit: only what changed is re-executed (progs.cell_statements)."""
+    for mod, src, _defines in progs.cell_statements(old, new, desc, twin):
+        exec_cell(src, sys.modules[progs.modname(new, mod, twin)])
 
 
 def deliver_reload(new, root, pkg, twin):
     progs.write_package(new, root, twin=twin)
     importlib.invalidate_caches()
     linecache.checkcache()
-    importlib.reload(sys.modules[pkg + ".a"])
-    importlib.reload(sys.modules[pkg + ".b"])
+    for mod in ("e", "i", "a", "b"):
+        name = progs.modname(new, mod, twin)
+        if name in sys.modules:
+            importlib.reload(sys.modules[name])
 
 
 def inproc_child(arg):
@@ -181,10 +152,13 @@ def inproc_child(arg):
                     deliver_cell(prev, prog, desc, ("tw_" if twin else "") + pkg, twin)
                 else:
                     deliver_reload(prog, root, ("tw_" if twin else "") + pkg, twin)
+        prev = prog
+        if desc.get("silent"):
+            steps.append(None)
+            continue
         twin_vals = call_all(prog, "tw_" + pkg, TWIN_REC, True)
         real = call_all(prog, pkg, REC, False)
         steps.append({"twin": twin_vals, "real": real, "versions": versions(prog, pkg)})
-        prev = prog
     return steps
 
 
@@ -195,10 +169,13 @@ def judge(out, fail, hist, steps, label):
     for k, st in enumerate(steps):
         prog, desc = hist[k]
         kind = desc["kind"]
+        out["obs"]["edit:" + kind] += 1
+        if st is None:
+            out["obs"]["edits_followed_by_no_call"] += 1
+            continue
         changed = prev_twin is not None and any(
             st["twin"].get(n) != prev_twin.get(n) for n in st["twin"] if n in prev_twin)
         out["obs"]["steps"] += 1
-        out["obs"]["edit:" + kind] += 1
         if changed:
             out["obs"]["behaviour_changing:" + kind] += 1
             out["nontrivial"].append("%s:%d" % (label, k))
@@ -216,7 +193,7 @@ def judge(out, fail, hist, steps, label):
                 if o != want:
                     stale_of = None
                     for back in range(k - 1, -1, -1):
-                        if steps[back]["twin"].get(name, [[None]])[0][0] == o:
+                        if steps[back] is not None and steps[back]["twin"].get(name, [[None]])[0][0] == o:
                             stale_of = back
                             break
                     what = ("value computed by an earlier edition is returned" if stale_of is not None
@@ -227,7 +204,7 @@ def judge(out, fail, hist, steps, label):
                          "%s; bodies run: %s; edit %s\n--- current edition, module of the function ---\n%s"
                          % (label, k, kind, name, j, o, want,
                             " (= value of edition %d)" % stale_of if stale_of is not None else "", ran,
-                            json.dumps(desc), progs.render_module(prog, "a") + "\n" + progs.render_module(prog, "b")))
+                            json.dumps(desc), progs.render_all(prog)))
         prev_twin = st["twin"]
         prev_versions = st["versions"]
 
@@ -263,6 +240,9 @@ def run_case(case):
             if case["delivery"] == "cross":
                 steps = []
                 for k, (prog, desc) in enumerate(hist):
+                    if desc.get("silent"):
+                        steps.append(None)
+                        continue
                     src = sc.path("src%d" % k)
                     progs.write_package(prog, src, twin=False)
                     progs.write_package(prog, src, twin=True)
